@@ -64,9 +64,10 @@ mod h {
     /// E1100: two jobs with the same id
     #[kani::proof] #[kani::unwind(12)]
     fn e1100_job_ids_are_unique() {
-        let ids = [id(4, 6), id(4, 6), id(4, 6)];
-        let p = problem(list([Job { id: ids[0] }, Job { id: ids[1] }, Job { id: ids[2] }]), Vec::new());
-        expect(check_e1100_no_jobs_with_duplicate_ids(&ValidationContext { problem: &p }), ids[0] == ids[1] || ids[0] == ids[2] || ids[1] == ids[2], b"E1100");
+        // (two jobs: the three-id case of the shared helper get_duplicates is unit U10e's)
+        let ids = [id(4, 5), id(4, 5)];
+        let p = problem(list([Job { id: ids[0] }, Job { id: ids[1] }]), Vec::new());
+        expect(check_e1100_no_jobs_with_duplicate_ids(&ValidationContext { problem: &p }), ids[0] == ids[1], b"E1100");
     }
     /// E1104: a job named departure / arrival / break / reload
     #[kani::proof] #[kani::unwind(12)]
@@ -78,10 +79,10 @@ mod h {
     /// E1300: two vehicle types with the same type id
     #[kani::proof] #[kani::unwind(12)]
     fn e1300_vehicle_type_ids_are_unique() {
-        let ids = [id(4, 6), id(4, 6), id(4, 6)];
+        let ids = [id(4, 5), id(4, 5)];
         let vt = |t: String| VehicleType { type_id: t, vehicle_ids: Vec::new() };
-        let p = problem(Vec::new(), list([vt(ids[0]), vt(ids[1]), vt(ids[2])]));
-        expect(check_e1300_no_vehicle_types_with_duplicate_type_ids(&ValidationContext { problem: &p }), ids[0] == ids[1] || ids[0] == ids[2] || ids[1] == ids[2], b"E1300");
+        let p = problem(Vec::new(), list([vt(ids[0]), vt(ids[1])]));
+        expect(check_e1300_no_vehicle_types_with_duplicate_type_ids(&ValidationContext { problem: &p }), ids[0] == ids[1], b"E1300");
     }
     /// E1301: a vehicle id occurs twice, inside one type or across types
     #[kani::proof] #[kani::unwind(12)]
